@@ -282,8 +282,9 @@ theorem holds for **every** strict total order on them (`…_anyOrder`); `CrnLab
 instance the driver runs.  Hypotheses: node ids distinct and arcs between nodes (`WFD`: what a
 NetworkX `DiGraph` guarantees; self-loops allowed), and `CrnAttrOK`: no selected attribute is `None`
 or `""` (`_label` reads an absent attribute as `""`, `_sig` as `None`) and `order` is not tuple
-valued — true of both views of every network (`views_attrOK`).  `CrnDefined` (at least one node, or
-at least one node key) is where the code does not raise `StopIteration`. -/
+valued — true of both views of every network (`views_attrOK`).  No non-emptiness hypothesis: since
+repair F39 `_init_part` returns no cell for the empty graph, whose search tree is the single leaf
+with the empty order (`crn_ir_empty_no_keys`). -/
 
 open SynKit.Canon (StrictTotal PartRel PartSub IRPartOK)
 
@@ -309,12 +310,12 @@ over the leaves of the search tree; on a graph with distinct ids it returns a le
 label, whose permutation lists every node exactly once (the point of repair F13), `perms` are the
 permutations of *all* leaves with that label, and `perms[0]` is `canonical_perm`. -/
 theorem crn_ir_result_spec (lt : CrnLabel → CrnLabel → Bool) (hlt : StrictTotal lt) (sel : SelD) (G : LGraph)
-    (hG : G.ids.Nodup) (hd : CrnDefined sel G) :
+    (hG : G.ids.Nodup) :
     ∃ m ∈ crnRootLeaves sel G,
       crnIrWith lt sel G = some ⟨crnLeafLabel sel G m, m.2, crnWithLabel sel G (crnLeafLabel sel G m) (crnRootLeaves sel G)⟩ ∧
       IsOrder G m.2 ∧ (∀ l ∈ crnRootLeaves sel G, lt (crnLeafLabel sel G l) (crnLeafLabel sel G m) = false) ∧
       (crnPermsOf (crnIrWith lt sel G)).head? = some m.2 := by
-  obtain ⟨m, hm, e, hp, hl⟩ := crnIrWith_spec lt hlt sel G hG hd
+  obtain ⟨m, hm, e, hp, hl⟩ := crnIrWith_spec lt hlt sel G hG
   refine ⟨m, hm, e, isOrder_of_perm hG hp, hl, ?_⟩
   have := crnFoldLeaves_head lt sel G (crnRootLeaves sel G) none (fun _ h => by simp at h) _
     ((crnIrWith_eq_fold lt sel G).symm.trans e)
@@ -325,26 +326,25 @@ theorem crn_ir_result_spec (lt : CrnLabel → CrnLabel → Bool) (hlt : StrictTo
 changed` loop and an unbounded recursion.  With the model's fuel neither runs out: `_refine`
 stops because its last pass split nothing (`changed = False`), more fuel gives the same refined
 partition, the same search tree and the same result. -/
-theorem crn_ir_fuel_adequate (lt : CrnLabel → CrnLabel → Bool) (sel : SelD) (G : LGraph) (hG : G.ids.Nodup)
-    (hd : CrnDefined sel G) :
+theorem crn_ir_fuel_adequate (lt : CrnLabel → CrnLabel → Bool) (sel : SelD) (G : LGraph) (hG : G.ids.Nodup) :
     (∀ P, IRPartOK G.ids P → ∃ Q, IRPartOK G.ids Q ∧ crnRefine sel G P = crnRefineStep sel G Q ∧
       (crnRefineStep sel G Q).length = Q.length) ∧
     (∀ P d, IRPartOK G.ids P → crnRefineLoop sel G (G.nodes.length + 1 + d) P = crnRefine sel G P) ∧
     (∀ d, crnLeaves sel G (G.nodes.length + 1 + d) (crnInitPart sel G) [] = crnRootLeaves sel G) ∧
     (∀ d, crnSearch lt sel G (G.nodes.length + 1 + d) (crnInitPart sel G) [] none = crnIrWith lt sel G) :=
   ⟨fun P hP => crnRefine_last_pass sel G P hP, fun P d hP => crnRefine_fuel sel G P hP d,
-    fun d => crnLeaves_root_fuel sel G hG hd d, fun d => crnIrWith_fuel lt sel G hG hd d⟩
+    fun d => crnLeaves_root_fuel sel G hG d, fun d => crnIrWith_fuel lt sel G hG d⟩
 
 /-- **C18, IR search, step 5 (ties).** Two leaves of one search tree with the same label differ by
 a structure-preserving self-map of the graph: position `i` of the first ↦ position `i` of the
 second.  `_label` skips the diagonal, so self-loops (a catalyst gives `A → A` in the species view)
 are not in the label; they are recovered from the refinement signature, which all leaves share
 position by position. -/
-theorem crn_ir_tie (sel : SelD) (G : LGraph) (hG : G.ids.Nodup) (hd : CrnDefined sel G) (hok : CrnAttrOK sel G)
+theorem crn_ir_tie (sel : SelD) (G : LGraph) (hG : G.ids.Nodup) (hok : CrnAttrOK sel G)
     (l l' : List Nat × List Nat) (hl : l ∈ crnRootLeaves sel G) (hl' : l' ∈ crnRootLeaves sel G)
     (hlab : crnLeafLabel sel G l = crnLeafLabel sel G l') :
     IsIsoF sel G G (posMap l.2 l'.2) ∧ l.2.map (posMap l.2 l'.2) = l'.2 := by
-  obtain ⟨h1, h2⟩ := crnIso_of_leaves sel G hG hd hok l l' hl hl' hlab
+  obtain ⟨h1, h2⟩ := crnIso_of_leaves sel G hG hok l l' hl hl' hlab
   exact ⟨isIsoF_of_crnIso hG h1, h2⟩
 
 /-- **C18, clause 3 for the implementation's search, every label order.** For every strict total
@@ -371,25 +371,25 @@ theorem crn_ir_invariant (sel : SelD) (G H : LGraph) (hG : WFD G) (hH : WFD H)
 /-- **C18, clause 1 for the implementation's search (`crn_ir_faithful`).** `canonical_perm` lists
 every node exactly once, so the canonical graph is isomorphic to the view it was computed from
 (every key choice; all attributes kept) and its ids are `1..N`. -/
-theorem crn_ir_faithful (sel sel' : SelD) (G : LGraph) (hG : WFD G) (hd : CrnDefined sel G) :
+theorem crn_ir_faithful (sel sel' : SelD) (G : LGraph) (hG : WFD G) :
     IsOrder G (crnIrOrder sel G) ∧
     IsIsoF sel' (canonIRD sel G) G (posOf (crnIrOrder sel G)) ∧
     (canonIRD sel G).ids.Perm (List.range' 1 G.ids.length) ∧
     (∀ v ∈ G.ids, (canonIRD sel G).attrs (posOf (crnIrOrder sel G) v) = G.attrs v) ∧
     (∀ u ∈ G.ids, ∀ v ∈ G.ids,
       (canonIRD sel G).arc? (posOf (crnIrOrder sel G) u) (posOf (crnIrOrder sel G) v) = G.arc? u v) := by
-  have ho : IsOrder G (crnIrOrder sel G) := crnOrderOf_isOrder CrnLabel.lt CrnLabel.lt_strictTotal sel G hG.1 hd
+  have ho : IsOrder G (crnIrOrder sel G) := crnOrderOf_isOrder CrnLabel.lt CrnLabel.lt_strictTotal sel G hG.1
   exact ⟨ho, canon_faithful sel' G _ hG ho⟩
 
 /-- **C18, clauses 2 + 3 for the implementation's search: a complete invariant.** The canonical
 graphs of two views are identical on the configured keys exactly when the views are isomorphic on
 them. -/
 theorem crn_ir_complete (sel : SelD) (G H : LGraph) (hG : WFD G) (hH : WFD H)
-    (aG : CrnAttrOK sel G) (aH : CrnAttrOK sel H) (dG : CrnDefined sel G) (dH : CrnDefined sel H) :
+    (aG : CrnAttrOK sel G) (aH : CrnAttrOK sel H) :
     IsIsoF sel (canonIRD sel G) (canonIRD sel H) id ↔ ∃ f, IsIsoF sel G H f :=
   ⟨fun h => canon_kernel sel G H _ _ hG hH
-      (crnOrderOf_isOrder CrnLabel.lt CrnLabel.lt_strictTotal sel G hG.1 dG)
-      (crnOrderOf_isOrder CrnLabel.lt CrnLabel.lt_strictTotal sel H hH.1 dH) h,
+      (crnOrderOf_isOrder CrnLabel.lt CrnLabel.lt_strictTotal sel G hG.1)
+      (crnOrderOf_isOrder CrnLabel.lt CrnLabel.lt_strictTotal sel H hH.1) h,
     fun h => (crn_ir_invariant sel G H hG hH aG aH h).2⟩
 
 /-- Both views of every network satisfy the attribute hypothesis (bipartite: node keys among
@@ -429,18 +429,18 @@ exactly the orbits of the structure-preserving self-maps: every listed permutati
 the first by such a map (`crn_ir_tie`) and, since nothing is pruned, every such map carries the
 first onto a listed one.  For every label order. -/
 theorem crn_ir_orbits_anyOrder (lt : CrnLabel → CrnLabel → Bool) (hlt : StrictTotal lt) (sel : SelD) (G : LGraph)
-    (hG : G.ids.Nodup) (hd : CrnDefined sel G) (hok : CrnAttrOK sel G) :
+    (hG : G.ids.Nodup) (hok : CrnAttrOK sel G) :
     IsPartition (crnOrbitsFromPerms (crnPermsOf (crnIrWith lt sel G))) G.ids ∧
     ∀ u ∈ G.ids, ∀ v ∈ G.ids,
       (SameClass (crnOrbitsFromPerms (crnPermsOf (crnIrWith lt sel G))) u v ↔ ∃ σ ∈ autsD sel G, app σ u = v) :=
-  crnOrbits_exact lt hlt sel G hG hd hok
+  crnOrbits_exact lt hlt sel G hG hok
 
 /-- **… as the driver runs it**: the classes of `orbits` (`crnIrOrbits`) are the classes of the
 specification's orbit partition `orbitsD` (clause 5 above). -/
-theorem crn_ir_orbits (sel : SelD) (G : LGraph) (hG : G.ids.Nodup) (hd : CrnDefined sel G) (hok : CrnAttrOK sel G) :
+theorem crn_ir_orbits (sel : SelD) (G : LGraph) (hG : G.ids.Nodup) (hok : CrnAttrOK sel G) :
     IsPartition (crnIrOrbits sel G) G.ids ∧
     ∀ u ∈ G.ids, ∀ v ∈ G.ids, (SameClass (crnIrOrbits sel G) u v ↔ SameClass (orbitsD sel G) u v) := by
-  obtain ⟨h1, h2⟩ := crnOrbits_exact CrnLabel.lt CrnLabel.lt_strictTotal sel G hG hd hok
+  obtain ⟨h1, h2⟩ := crnOrbits_exact CrnLabel.lt CrnLabel.lt_strictTotal sel G hG hok
   refine ⟨h1, fun u hu v hv => ?_⟩
   rw [(orbits_partition_exact sel G hG).2 u hu v hv]
   exact h2 u hu v hv
@@ -459,10 +459,10 @@ def C18.IRStatement : Prop :=
     N.WF → N'.WF → SameUpToNames N N' →
     crnIrLabel sel (viewSpecies N') = crnIrLabel sel (viewSpecies N) ∧
     IsIsoF sel (canonIRD sel (viewSpecies N')) (canonIRD sel (viewSpecies N)) id) ∧
-  ∀ (sel : SelD) (G : LGraph), WFD G → CrnAttrOK sel G → CrnDefined sel G →
+  ∀ (sel : SelD) (G : LGraph), WFD G → CrnAttrOK sel G →
     (IsOrder G (crnIrOrder sel G) ∧ IsIsoF sel (canonIRD sel G) G (posOf (crnIrOrder sel G)) ∧
       (canonIRD sel G).ids.Perm (List.range' 1 G.ids.length)) ∧
-    (∀ H, WFD H → CrnAttrOK sel H → CrnDefined sel H →
+    (∀ H, WFD H → CrnAttrOK sel H →
       (IsIsoF sel (canonIRD sel G) (canonIRD sel H) id ↔ ∃ f, IsIsoF sel G H f)) ∧
     (IsPartition (crnIrOrbits sel G) G.ids ∧
       ∀ u ∈ G.ids, ∀ v ∈ G.ids, (SameClass (crnIrOrbits sel G) u v ↔ ∃ σ ∈ autsD sel G, app σ u = v))
@@ -470,11 +470,31 @@ def C18.IRStatement : Prop :=
 theorem C18.ir_full : C18.IRStatement := by
   refine ⟨fun sel st N N' hs hN hN' h => crn_ir_sameUpToNames_bip sel st N N' hs hN hN' h,
     fun sel N N' h1 h2 hN hN' h => crn_ir_sameUpToNames_species sel N N' h1 h2 hN hN' h, ?_⟩
-  intro sel G hG aG dG
-  refine ⟨?_, fun H hH aH dH => crn_ir_complete sel G H hG hH aG aH dG dH,
-    crn_ir_orbits_anyOrder CrnLabel.lt CrnLabel.lt_strictTotal sel G hG.1 dG aG⟩
-  obtain ⟨h1, h2, h3, _, _⟩ := crn_ir_faithful sel sel G hG dG
+  intro sel G hG aG
+  refine ⟨?_, fun H hH aH => crn_ir_complete sel G H hG hH aG aH,
+    crn_ir_orbits_anyOrder CrnLabel.lt CrnLabel.lt_strictTotal sel G hG.1 aG⟩
+  obtain ⟨h1, h2, h3, _, _⟩ := crn_ir_faithful sel sel G hG
   exact ⟨h1, h2, h3⟩
+
+/-- **C18, IR search on the empty graph without node keys (repair F39).** `_init_part` returns no
+cell (`[sorted(G.nodes())] if len(G) else []`), so `_refine` has nothing to do, the empty partition
+is discrete and the root of the search tree is its only leaf: `canonical_perm = []`, the label of
+the empty permutation, `sample_permutations = [[]]` (`automorphism_count = 1`: the empty map),
+`orbits = []` and the canonical graph is the empty graph.  Both views of the network without species
+and reactions are this graph.  Every choice of arc keys.  (Before the repair the initial partition
+was `[[]]`, not discrete with no cell to individualise: `StopIteration`; the theorems of this section
+then carried a hypothesis excluding this input.) -/
+theorem crn_ir_empty_no_keys (ek : List String) :
+    crnInitPart ⟨[], ek⟩ {} = [] ∧
+    crnRootLeaves ⟨[], ek⟩ {} = [([], [])] ∧
+    crnIr ⟨[], ek⟩ {} = some ⟨⟨[], []⟩, [], [[]]⟩ ∧
+    crnIrOrder ⟨[], ek⟩ {} = [] ∧
+    crnIrLabel ⟨[], ek⟩ {} = some ⟨[], []⟩ ∧
+    crnIrPerms ⟨[], ek⟩ {} = [[]] ∧ (crnIrPerms ⟨[], ek⟩ {}).length = 1 ∧
+    crnIrOrbits ⟨[], ek⟩ {} = [] ∧
+    canonIRD ⟨[], ek⟩ {} = {} ∧
+    (∀ stoich, viewBip stoich ⟨[], []⟩ = {}) ∧ viewSpecies ⟨[], []⟩ = {} :=
+  ⟨rfl, rfl, rfl, rfl, rfl, rfl, rfl, rfl, rfl, by decide, by decide⟩
 
 /-! ### Non-vacuity of the IR section -/
 
@@ -484,8 +504,8 @@ def exCat : Net := { labels := ["A", "B", "C"], rxns := [⟨"r_1", "r", [(0, 1),
 def exCatRenamed : Net := { labels := ["P", "Q", "R"], rxns := [⟨"z", "r", [(1, 1), (2, 1)], [(0, 1), (2, 1)]⟩] }
 
 /-- the hypotheses hold on concrete views (one with a non-trivial automorphism, one with a self-loop) … -/
-example : WFD (viewBip true exRev) ∧ CrnAttrOK selDefault (viewBip true exRev) ∧ CrnDefined selDefault (viewBip true exRev) ∧
-    WFD (viewSpecies exCat) ∧ CrnAttrOK selDefault (viewSpecies exCat) ∧ CrnDefined selDefault (viewSpecies exCat) ∧
+example : WFD (viewBip true exRev) ∧ CrnAttrOK selDefault (viewBip true exRev) ∧
+    WFD (viewSpecies exCat) ∧ CrnAttrOK selDefault (viewSpecies exCat) ∧
     (viewSpecies exCat).arc? 0 0 ≠ none := by decide
 /-- … the search returns the order the implementation returns (`canonical_perm` of `A + B ⇌ C`:
 `r_2, r_1, C, A, B`), two least-label leaves, the orbit `{A, B}` … -/
